@@ -844,8 +844,6 @@ class MultiShapeBase(SimpleShapeMixin, BaseShape, ABC):
             if self_shape.intersects_shape(shape):
                 return True
 
-            return False
-
         return False
 
     def split(self) -> List[BaseShape]:
